@@ -238,6 +238,53 @@ class Fn:
             return "discr(" + self.describe_place(rv["p"], depth + 1) + ")"
         return "_%d" % local
 
+    def root_place(self, op, depth=0):
+        """follow single-definition copies / (re)borrows to the underlying place:
+        returns (base_local, [projection elems]) or None. Ignores debug names."""
+        if op["k"] not in ("copy", "move"):
+            return None
+        return self._root_place_p(op["p"], depth)
+
+    def _root_place_p(self, p, depth=0):
+        loc = p["local"]
+        proj = list(p["proj"])
+        if depth > 12 or 1 <= loc <= self.rec["arg_count"]:
+            return (loc, proj)
+        ds = self.defs_of(loc)
+        if len(ds) != 1 or ds[0][0] != "assign":
+            return (loc, proj)
+        rv = ds[0][2]["rv"]
+        inner = None
+        if rv["k"] in ("use", "cast") and rv["o"]["k"] in ("copy", "move"):
+            inner = rv["o"]["p"]
+        elif rv["k"] in ("ref", "rawptr"):
+            inner = rv["p"]
+        if inner is None:
+            return (loc, proj)
+        r = self._root_place_p(inner, depth + 1)
+        if r is None:
+            return (loc, proj)
+        return (r[0], r[1] + proj)
+
+    def field_path(self, op):
+        """'arg1|Variant.field|field' style canonical path of the place an operand denotes"""
+        r = self.root_place(op)
+        if r is None:
+            return None
+        loc, proj = r
+        parts = []
+        for e in proj:
+            if e == "*":
+                continue
+            if isinstance(e, dict) and "f" in e:
+                parts.append(short_ty(e["of"]) + "." + e["f"])
+            elif isinstance(e, dict) and "variant" in e:
+                continue
+            else:
+                parts.append("[]")
+        base = self.name_of(loc) if 1 <= loc <= self.rec["arg_count"] else "_%d" % loc
+        return (base or "arg%d" % loc) + "".join("|" + x for x in parts)
+
     def err_return_blocks(self):
         """blocks that build the function's Err(..) return value"""
         out = []
